@@ -1,4 +1,5 @@
 """Symbolic inputs, query decision, model extraction."""
+import os
 import time
 from fractions import Fraction
 import numpy as real_np
@@ -7,7 +8,7 @@ from .values import (SF, MIN_INT, MAX_INT, is_sym, to_z3_bool, conc_bool, b_and,
 from .symarray import A, SymLen
 from .runtime import fresh_runtime, current, run_paths
 
-SOLVER_TIMEOUT_MS = 120_000
+SOLVER_TIMEOUT_MS = int(os.environ.get("GBVERIF_SOLVER_TIMEOUT_MS", "120000"))
 
 
 def dtype_range(dt):
